@@ -97,15 +97,21 @@ static void run(int tier, long idx, vf_result *r)
     cs_make_vna(&sc.vna, types[t], rows, cols, nf, net);
     sc.ab = ab;
     sc.a_variant = (int)((ev + av + kv) % 3);
-    if (cs_recipe(&sc, recipe, ev, av, pv, kv) != 0) {
+    /* scalar standards: purely real values in every other first-handle /
+       frequency-count combination (0.02, 0.965, -0.957, 0.35, ...) */
+    cs_real_scalars = kv == 2 && ((fill + nf) & 1);
+    int rcp = cs_recipe(&sc, recipe, ev, av, pv, kv);
+    int real_scalars = cs_real_scalars;
+    cs_real_scalars = 0;
+    if (rcp != 0) {
 	vf_desc(r, "%s %dx%d recipe %d: does not exist",
 		vnacal_type_to_name(types[t]), rows, cols, recipe);
 	vf_outcome(r, "no-such-recipe");
 	return;
     }
     cs_describe(&sc, desc, sizeof(desc));
-    vf_desc(r, "net=%d ev=%d av=%d pv=%d kv=%d first-handle=%d %s", net, ev,
-	    av, pv, kv, 3 + fill, desc);
+    vf_desc(r, "net=%d ev=%d av=%d pv=%d kv=%d%s first-handle=%d %s", net, ev,
+	    av, pv, kv, real_scalars ? " (real scalars)" : "", 3 + fill, desc);
 
     long double margin;
     int eqs, unk;
